@@ -24,6 +24,7 @@ type Environment struct {
 	cacheKey  string
 	ids       *trie.Trie
 	numSet    int64
+	epoch     int64 // incremented when a top level function or constant is replaced or deleted (invalidates cached results).
 	getMiss   int64
 	cantCache bool
 	function  *Function
@@ -228,8 +229,10 @@ func (e *Environment) makeRef(name string) (*Reference, bool) {
 			ref = r // set and return the original ref instead of ref of ref.
 		}
 		orig.store[name] = ref
-		if !Constant(name) && obj.Type() != FUNC {
-			orig.getMiss++ // creating a ref to a non constant is a miss.
+		if ref.RefEnv.depth != 0 || (!Constant(name) && obj.Type() != FUNC) {
+			// creating a ref to a non constant is a miss; constants and functions are only
+			// exempt at top level (replacing those bumps the epoch), not when captured from an enclosing call.
+			orig.getMiss++
 			log.Debugf("makeRef(%s) GETMISS %d", name, orig.getMiss)
 		}
 		return &ref, true
@@ -254,7 +257,7 @@ func (e *Environment) Get(name string) (Object, bool) {
 	obj, ok := e.store[name]
 	if ok {
 		// using references to non constant (extensions are constants) implies uncacheable.
-		if r, ok := obj.(Reference); ok && !Constant(r.Name) && r.ObjValue().Type() != FUNC {
+		if r, ok := obj.(Reference); ok && (r.RefEnv.depth != 0 || (!Constant(r.Name) && r.ObjValue().Type() != FUNC)) {
 			e.getMiss++
 			log.Debugf("get(%s) GETMISS %d", name, e.getMiss)
 		}
@@ -276,7 +279,8 @@ func (e *Environment) Delete(name string) Object {
 	if e.depth == 0 {
 		e.numSet++
 	}
-	if _, ok := e.store[name]; ok {
+	if old, ok := e.store[name]; ok {
+		e.noteReplaced(name, old)
 		delete(e.store, name)
 		log.Debugf("Delete(%s) found at %d %v", name, e.depth, e.cacheKey)
 		return TRUE
@@ -338,10 +342,28 @@ func (e *Environment) IsRef(name string) (*Environment, string) {
 	return nil, ""
 }
 
+// Epoch changes whenever a top level function or constant was replaced or deleted: results
+// memoized before that may depend on the old definition.
+func (e *Environment) Epoch() int64 {
+	for e.outer != nil {
+		e = e.outer
+	}
+	return e.epoch
+}
+
+func (e *Environment) noteReplaced(name string, old Object) {
+	if e.depth == 0 && (old.Type() == FUNC || Constant(name)) {
+		e.epoch++
+	}
+}
+
 func (e *Environment) create(name string, val Object) Object {
 	if e.depth == 0 {
 		e.numSet++
 		record(e.ids, name, val.Type())
+		if old, ok := e.store[name]; ok {
+			e.noteReplaced(name, old)
+		}
 	}
 	val = Value(val)
 	e.store[name] = val
@@ -354,6 +376,9 @@ func (e *Environment) update(name string, found, val Object) Object {
 		log.Debugf("SetNoChecks(%s) updating ref %s in %d", name, rr.Name, rr.RefEnv.depth)
 		e = rr.RefEnv
 		name = rr.Name
+	}
+	if old, ok := e.store[name]; ok {
+		e.noteReplaced(name, old)
 	}
 	e.store[name] = val
 	if e.depth == 0 {
